@@ -2,6 +2,7 @@ import Vegeta.Go.Proto
 import Vegeta.Model.GobFrame
 import Vegeta.Driver.C07
 import Vegeta.Model.GobValue
+import Vegeta.Model.EncodeCmd
 /-! Driver operations of property C09 (ops are named `c09.<name>`); `c07.*` ops are forwarded.
 
 `c09.*bounds` ops print, for a whole stream, the byte offsets at which the model decoder has
@@ -81,6 +82,50 @@ def handle (op : String) (args : List String) : Option String :=
     let (b, _) ← bytes.run args
     let p := frameBounds (b.length + 1) 0 b
     pure (showNats p.1 ++ " | " ++ showFrameEnd p.2)
+  | "c09.enccalls" => do
+    -- codec, then n × (zone, result): bytes at the writer after every call, and which calls returned nil
+    let ((cd, args), _) ← (do
+      let ct ← tok
+      let cd ← (match ct with
+        | "csv" => pure Vegeta.Model.EncodeCmd.Codec.csv
+        | "json" => pure Vegeta.Model.EncodeCmd.Codec.json
+        | "gob" => pure Vegeta.Model.EncodeCmd.Codec.gob
+        | _ => failure : P Vegeta.Model.EncodeCmd.Codec)
+      let xs ← listOf (do
+        let zt ← tok
+        let z ← (if zt == "u" then pure Vegeta.Model.GobValue.Zone.utc else
+          match zt.toInt? with
+          | some o => pure (Vegeta.Model.GobValue.Zone.fixed o)
+          | none => failure : P Vegeta.Model.GobValue.Zone)
+        let r ← Vegeta.Driver.C07.resultP
+        pure (z, r))
+      pure (cd, xs)).run args
+    let step := fun (acc : List Nat × List Bool × Nat × Vegeta.Model.EncodeCmd.EncState) (zr : Vegeta.Model.GobValue.Zone × Result) =>
+      let o := Vegeta.Model.EncodeCmd.encCall cd acc.2.2.2 zr.1 zr.2
+      (acc.1 ++ [acc.2.2.1 + o.bytes.length], acc.2.1 ++ [o.ok], acc.2.2.1 + o.bytes.length, o.st)
+    let fin := args.foldl step ([], [], 0, {})
+    pure (showNats fin.1 ++ " |" ++ fin.2.1.foldl (fun s b => s ++ (if b then " 1" else " 0")) "")
+  | "c09.encodecmd" => do
+    -- src codec, dst codec, zone, input bytes: output bytes and whether the command returned nil
+    let ((src, dst, z, b), _) ← (do
+      let cdP : P Vegeta.Model.EncodeCmd.Codec := do
+        let ct ← tok
+        match ct with
+        | "csv" => pure Vegeta.Model.EncodeCmd.Codec.csv
+        | "json" => pure Vegeta.Model.EncodeCmd.Codec.json
+        | "gob" => pure Vegeta.Model.EncodeCmd.Codec.gob
+        | _ => failure
+      let s ← cdP
+      let d ← cdP
+      let zt ← tok
+      let z ← (if zt == "u" then pure Vegeta.Model.GobValue.Zone.utc else
+        match zt.toInt? with
+        | some o => pure (Vegeta.Model.GobValue.Zone.fixed o)
+        | none => failure : P Vegeta.Model.GobValue.Zone)
+      let b ← bytes
+      pure (s, d, z, b)).run args
+    let o := Vegeta.Model.EncodeCmd.encodeCmd src dst z b
+    pure ((if o.2 then "ok " else "err ") ++ hexEncode o.1)
   | "c09.gobbounds" => do
     let (b, _) ← bytes.run args
     let p := gobBounds b
